@@ -8,12 +8,21 @@ package main
 // op:  exec <engine> { <kind> <nsigners> <limit> <source> }*
 //      kind = tx | script | call (source = "<address>.<Contract>.<function>")
 // obs: trace of step 1 | trace of step 2 | ...      (events separated by single spaces)
+//
+// State probes (oracle `stale-read-after-commit`, theorem commit_complete): every generated transaction
+// and script logs, when it starts, what it reads of each *channel* of the state — the storage paths of
+// account 0x1 (`01`) and of 0x2 (`02`), the resources stored there (`r01`, `r02`), the fields of contract 0x1.C (`c01`) — as
+// `["@b<channel>", …]`, and every transaction logs the same after its last change of the channel as
+// `["@e<channel>", …]`; the host records such a log as `l:@b01:<digest>`.  The driver compares what a
+// step reads at its start with what the last committed step had in memory at its end (dictionaries and
+// composites are rendered order-independently: their iteration order is not part of the state).
 
 import (
 	"fmt"
 	"os"
 	"strconv"
 	"strings"
+	"time"
 
 	"github.com/onflow/cadence/common"
 
@@ -22,7 +31,7 @@ import (
 )
 
 func init() {
-	hx.Register(&hx.Stream{Name: "exec", Gen: c24GenStream, Exec: c24Exec, Parallel: true})
+	hx.Register(&hx.Stream{Name: "exec", Gen: c24GenStream, Exec: host.Robust(c24Exec, 120*time.Second, 900*time.Second), Parallel: true, Timeout: host.RobustTimeout})
 }
 
 // ---- the contract used by the generated histories (single line; statements separated by `;`)
@@ -155,12 +164,43 @@ func (g *c24Gen) stmt(acct string, inScript bool) string {
 	}
 }
 
+// c24ProbeFn renders a stored value independently of container iteration order.
+const c24ProbeFn = `let pr = fun (_ x: AnyStruct?): AnyStruct? { if let y = x { ` +
+	`if let d = y as? {String: Int} { return [d["a"], d["b"], d.length] as [Int?] }; ` +
+	`if let i = y as? Int { return i }; if let s = y as? String { return s }; if let t = y as? Bool { return t }; ` +
+	`if let xs = y as? [Int] { return xs }; if let xss = y as? [[Int]] { return xss }; ` +
+	`return y.getType().identifier }; return nil }`
+
+// probePaths: log what the program reads of the storage paths of `acct` (channel = the account, 01 / 02)
+func (g *c24Gen) probePaths(phase, acct, channel string) string {
+	var xs []string
+	for _, p := range c24Paths {
+		xs = append(xs, "pr("+acct+".storage.copy<AnyStruct>(from: /storage/"+p+"))")
+	}
+	out := `log(["@` + phase + channel + `", ` + strings.Join(xs, ", ") + `] as [AnyStruct?])`
+	if g.deployed {
+		// the resources stored by the account: their own channel r01 / r02 (the program can only read
+		// them while C is imported; the format of a channel never changes within a history)
+		var rs []string
+		for _, r := range []string{"r0", "r1"} {
+			rs = append(rs, acct+".storage.borrow<&C.R>(from: /storage/"+r+")?.v")
+		}
+		out += `; log(["@` + phase + "r" + channel + `", ` + strings.Join(rs, ", ") + `] as [AnyStruct?])`
+	}
+	return out
+}
+
+// probeContract: log the fields of contract 0x1.C (channel c01)
+func (g *c24Gen) probeContract(phase string) string {
+	return `log(["@` + phase + `c01", C.n, C.d["k"], C.d["l"], C.d["m"], C.d["e"], C.d.length] as [AnyStruct?])`
+}
+
 func (g *c24Gen) failure() string {
 	g.n++
 	id := strconv.Itoa(g.n)
 	switch g.r.Intn(9) {
 	case 0:
-		return `panic("x")`
+		return `if 1 > 0 { panic("x") }` // (a bare panic makes the statements after it unreachable: checker error)
 	case 1:
 		return `assert(false, message: "m")`
 	case 2:
@@ -175,7 +215,7 @@ func (g *c24Gen) failure() string {
 		if g.deployed {
 			return "C.boom()"
 		}
-		return `panic("y")`
+		return `if 1 > 0 { panic("y") }`
 	case 7:
 		return "let w" + id + " = 1 as AnyStruct as! String"
 	default:
@@ -244,6 +284,19 @@ func (g *c24Gen) tx(fail bool) (int, string) {
 	if ns == 2 {
 		params += ", b: " + c24AcctAuth
 	}
+	// state probes: at the start of prepare, and after the last change of each channel (the storage
+	// paths can only change in prepare, the contract's fields also in execute)
+	begin := []string{c24ProbeFn, g.probePaths("b", "a", "01")}
+	end := []string{g.probePaths("e", "a", "01")}
+	if ns == 2 {
+		begin = append(begin, g.probePaths("b", "b", "02"))
+		end = append(end, g.probePaths("e", "b", "02"))
+	}
+	if g.deployed {
+		begin = append(begin, g.probeContract("b"))
+		exe = append(exe, g.probeContract("e"))
+	}
+	prep = append(append(begin, prep...), end...)
 	src := imp + "transaction { prepare(" + params + ") { " + strings.Join(prep, "; ") + " } "
 	if pre != "" {
 		src += "pre { " + pre + " } "
@@ -267,13 +320,19 @@ func (g *c24Gen) script(fail bool) string {
 	if fail {
 		body = c24InsertAt(body, 1+g.r.Intn(len(body)), g.failure())
 	}
+	// state probes at the start (a script commits nothing: no end probes)
+	probes := []string{"let b = getAuthAccount<" + c24AcctAuth + ">(0x2)", c24ProbeFn, g.probePaths("b", "a", "01"), g.probePaths("b", "b", "02")}
+	if g.deployed {
+		probes = append(probes, g.probeContract("b"))
+	}
+	body = append(append([]string{body[0]}, probes...), body[1:]...)
 	body = append(body, "return 1")
 	return imp + "access(all) fun main(): Int { " + strings.Join(body, "; ") + " }"
 }
 
 func (g *c24Gen) limit() string {
 	if g.r.Chance(22) {
-		return strconv.Itoa(1 + g.r.Intn(40))
+		return strconv.Itoa(1 + g.r.Intn(160)) // (the state probes at the start take about 60)
 	}
 	return "100000"
 }
